@@ -21,6 +21,7 @@ type PropCfg struct {
 	// Sweep: additional functions (by key prefix) verified without contract for the given families
 	SweepPrefixes []string
 	SweepFamilies []string
+	SweepExclude  []string
 	SweepGuarded  bool   // also verify (family LOCK) every function that touches a guarded_by global
 	Replay        string // decoder name
 	Composition   string // the unchecked step from per-function contracts to the property
@@ -191,7 +192,19 @@ func cmdCheck(args []string) int {
 		}
 		for _, fn := range w.AllFuncs {
 			k := w.FuncKey[fn]
-			if under[k] {
+			if under[k] || isInitFunc(fn) {
+				continue
+			}
+			if con := sp.Contracts[k]; con != nil && con.Trusted {
+				continue
+			}
+			skip := false
+			for _, ex := range cfg.SweepExclude {
+				if strings.HasPrefix(k, ex) {
+					skip = true
+				}
+			}
+			if skip {
 				continue
 			}
 			for _, pre := range cfg.SweepPrefixes {
@@ -201,7 +214,64 @@ func cmdCheck(args []string) int {
 				}
 			}
 		}
-		results = append(results, verifyAll(w, sp, mods, sweep, familySet(cfg.SweepFamilies), work, timeout, confirm)...)
+		sres := verifyAll(w, sp, mods, sweep, familySet(cfg.SweepFamilies), work, timeout, confirm)
+		// frame refinement: functions whose FRAME obligations all discharged have a proved frame; callers that
+		// failed only because of the (coarser) inferred frame of such a callee are verified again
+		if familySet(cfg.SweepFamilies)["FRAME"] {
+			all := append(append([]*FuncResult{}, results...), sres...)
+			for round := 0; round < 5; round++ {
+				var newly []*ssa.Function
+				var failing []string
+				for _, r := range all {
+					fn := w.Funcs[r.Key]
+					if fn == nil || r.GenErr != "" || len(r.Unsupported) > 0 {
+						continue
+					}
+					bad := false
+					for _, o := range r.Obligations {
+						if o.Family == "FRAME" && o.Result != nil && o.Result.Status != "unsat" {
+							bad = true
+						}
+					}
+					if bad {
+						failing = append(failing, r.Key)
+					} else if !mods.Verified[fn] {
+						newly = append(newly, fn)
+					}
+				}
+				if len(newly) == 0 || len(failing) == 0 {
+					break
+				}
+				mods.MarkVerified(newly)
+				fmt.Printf("frame refinement round %d: %d functions with a proved frame, re-verifying %d\n", round+1, len(mods.Verified), len(failing))
+				isTarget := map[string]bool{}
+				for _, k := range targets {
+					isTarget[w.FuncKey[w.Funcs[k]]] = true
+				}
+				var reT, reS []string
+				for _, k := range failing {
+					if isTarget[k] {
+						reT = append(reT, k)
+					} else {
+						reS = append(reS, k)
+					}
+				}
+				redo := append(verifyAll(w, sp, mods, reT, familySet(cfg.Families), work, timeout, confirm),
+					verifyAll(w, sp, mods, reS, familySet(cfg.SweepFamilies), work, timeout, confirm)...)
+				byKey := map[string]*FuncResult{}
+				for _, r := range redo {
+					byKey[r.Key] = r
+				}
+				for i, r := range all {
+					if nr, ok := byKey[r.Key]; ok {
+						all[i] = nr
+					}
+				}
+			}
+			results = all
+		} else {
+			results = append(results, sres...)
+		}
 	}
 	if cfg.SweepGuarded {
 		under := map[string]bool{}
@@ -271,6 +341,12 @@ func cmdCheck(args []string) int {
 		}
 		passedFns[fnKey] = false
 		rep.Model = r.Model
+		if r.Status == "error" {
+			fmt.Printf("ERROR solver-error %s: %s\n", o.Name, truncate(r.Raw, 300))
+			exit = 3
+			reports = append(reports, rep)
+			return
+		}
 		// known finding?
 		sn := stableName(o.Name)
 		for _, f := range kf.Findings {
